@@ -18,6 +18,11 @@ CLAIMED = {
    note="Trusted: the memtable model in props/c13.rs, vm-memory's GuestMemory read/write as the observation channel, the double barrier for sampling the queue's descriptor-table address. Unsorted/overlapping SET_MEM_TABLE may fail or succeed; probes with overlapping user ranges are skipped; failing application update_memory callbacks are not injected.",
    technique="model-based (stateful) property testing with proptest histories vs. memory-table reference model",
    ref="DESIGN.md section 3, C13"),
+ "C14": dict(level="exploration",
+   text="Stateful property testing of a real 3-ring daemon (back end direct / Mutex / RwLock wrapped, VringMutex / VringRwLock): thousands of random histories in arbitrary message order, each step compared with a model of the configured ring using the queue state sampled inside the worker thread at a barrier, the used-ring bytes and used index in the memfds of the latest accepted table (and the previous table's files unchanged), the counters of every call eventfd ever installed, the values the back end's acked_features/set_event_idx received, and the behaviour of the Backend proxy handed over by SET_BACKEND_REQ_FD (refusals, NEED_REPLY flag).",
+   note="Trusted: the ring model in props/c14.rs, virtio-queue getters as observation of the queue, the barrier listener. Non-power-of-two sizes within the maximum are outside the statement and only counted. Refused requests end the connection (daemon policy); the harness reconnects to the same daemon.",
+   technique="model-based (stateful) property testing with proptest histories vs. ring-configuration reference model",
+   ref="DESIGN.md section 3, C14"),
  "C17": dict(level="exploration",
    text="Every queues-per-thread configuration with num_queues<=4 and <=2 worker masks (quick; <=3 masks thorough), each mask any value below 2^(num_queues+2), is built as a real daemon and every queue is kicked once (exhaustive over that finite sub-space), plus sampled configurations up to 6 queues x 3 threads; owner thread, event id (rank), ring-slice length and ring identity (size 2^(q+1)) are compared with the first-principles formula, other workers must stay silent (double barrier on every worker), dropping the daemon must terminate the workers through the exit event. Custom listener ids over the 64-bit range must be delivered exactly or refused.",
    note="Trusted: the double barrier, the first-principles owner/rank formula in props/c17.rs. Queues in no mask: only silence is checked. Listener ids that cannot be delivered may be refused (acceptance creates the obligation). A hung teardown is diagnosed after 10 s with the worker threads' states and ends the run as a violation.",
